@@ -14,6 +14,13 @@ k in {1, 2, 3} (Planar2DCode 2x2, Toric2DCode 2x2, Toric3DCode 2x2x2); the trial
 all (effective error, codespace) types: all 8 for k=1, the first ones of a fixed stride order for
 k=2, 3 (thorough: all 32 for k=2).
 
+A third parameter point C (2 trials, dealt from the last file backwards) has A's code, decoder and
+error rate but a noise direction that differs from A's at the 1e-8 level only: A and C must stay
+separate rows (rows are identified by error rate AND exact noise direction).  A 'large count'
+family adds one parameter point with 600 trials (repeating pattern: per logical qubit 300 hits of one
+Pauli type, 60 of each other, every fifth trial outside the codespace) split into 2 or 3 files of
+unequal length in 6 container combinations x {explicit paths, directory}.
+
 Oracle (plain Python on the pooled trial list, no panqec code): one row per error rate; n_trials,
 n_fail, p_est = n_fail/n, p_se = sqrt(p(1-p)/(n+1)); n_trials_X/Z = k * #codespace, n_fail_X/Z =
 flagged X/Z bits among codespace trials; p_word = 1-(1-p)^(1/k) and (1/k)(1-p)^(1/k-1) p_se;
@@ -56,7 +63,10 @@ RULE = ('one sub-case = (k, trial set, set partition of the 5 trials of point A 
         'identity order; f >= 4: identity/reversed/directory). Mode r: as q but at f = 3 only the uniform and '
         'cyclic kind assignments. quick: k=1 two trial sets in mode q (all 8 trial types), k=2 and k=3 one trial '
         'set each in mode r. thorough: mode t for the first two trial sets of every k, mode q for the further '
-        'ones (k=2: 8 sets = all 32 trial types, k=3: 3 sets). A sub-case is counted non-trivial when the layout '
+        'ones (k=2: 8 sets = all 32 trial types, k=3: 3 sets). Every layout also carries points B (other error '
+        'rate) and C (same rate as A, noise direction 1e-8 away). Both tiers add the large-count family: per k, '
+        '600 trials of one point in files of lengths [150,450] and [100,257,243] x 6 kind combinations x '
+        '{explicit paths, directory}. A sub-case is counted non-trivial when the layout '
         'holds more result records than parameter points (a point is repeated over files, so pooling has to '
         'happen) or uses a container other than plain json; counted as distinct (kinds, order) layouts per work '
         'item (work items are disjoint).')
@@ -69,8 +79,12 @@ ASSUMPTIONS = [
 ]
 BOUNDS = {
     'quick': {'trials_point_A': 5, 'trials_point_B': 3, 'partitions': 52, 'error_rates': [0.1, 0.2],
+              'trials_point_C': 2, 'noise_offset_point_C': 1e-8, 'large_family_trials': 600,
+              'large_family_file_lengths': [[150, 450], [100, 257, 243]],
               'trial_sets': {'1': 2, '2': 1, '3': 1}, 'mode': {'1': 'qq', '2': 'r', '3': 'r'}},
     'thorough': {'trials_point_A': 5, 'trials_point_B': 3, 'partitions': 52, 'error_rates': [0.1, 0.2],
+                 'trials_point_C': 2, 'noise_offset_point_C': 1e-8, 'large_family_trials': 600,
+                 'large_family_file_lengths': [[150, 450], [100, 257, 243]],
                  'trial_sets': {'1': 2, '2': 8, '3': 3}, 'mode': {'1': 'tt', '2': 'ttq', '3': 'ttq'}},
 }
 BUDGET_S = {'quick': 600, 'thorough': 7200}
@@ -79,6 +93,19 @@ KINDS = ['json', 'gz', 'zip', 'merged']
 RATES = [0.1, 0.2]
 N_A = 5
 N_B = 3
+N_C = 2
+# noise directions: A and B use NOISE[0]; point C has A's code, decoder and error rate but a direction that
+# differs from A's at the 1e-8 level only (still a valid direction: sums to 1) - a different parameter point
+NOISE = [(1 / 3, 1 / 3, 1 / 3), (1 / 3 + 1e-8, 1 / 3, 1 / 3 - 1e-8)]
+POINTS = {'A': (RATES[0], 0), 'B': (RATES[1], 0), 'C': (RATES[0], 1)}
+# 'large count' family: one parameter point with N_LARGE trials (a repeating pattern of LARGE_PERIOD trial
+# types), split into files of unequal length; per logical qubit 300 hits of one Pauli type (more than any
+# 8-bit counter holds), 60 of each other type, 180 clean
+N_LARGE = 600
+LARGE_PERIOD = 10
+LARGE_SPLITS = [[150, 450], [100, 257, 243]]
+LARGE_KINDS = {2: [(0, 0), (1, 1), (2, 2), (3, 3), (0, 1), (2, 3)],
+               3: [(0, 0, 0), (1, 1, 1), (2, 2, 2), (3, 3, 3), (0, 1, 2), (1, 2, 3)]}
 TOL = 1e-12
 CODES = {1: ('Planar2DCode', (2, 2)), 2: ('Toric2DCode', (2, 2)), 3: ('Toric3DCode', (2, 2, 2))}
 STRIDE = {1: 3, 2: 7, 3: 37}
@@ -111,7 +138,27 @@ def trial_sets(k, s):
     a = [0] + chunk + [0] * (4 - len(chunk))
     mid = 0 if (s % 2 == 0 or k > 1) else seq[(4 * s + 2) % n]
     b = [seq[(4 * s + 6) % n], mid, seq[(4 * s + 11) % n]]
-    return a, b
+    c = [seq[(4 * s + 9) % n], 0]
+    return a, b, c
+
+
+def large_trials(k):
+    """N_LARGE trial type numbers: trial j puts on logical qubit i the Pauli PAT[(j + i) % 10] (X and Z swapped
+    on odd qubits); every fifth trial is outside the codespace.  Trial j = 7 (mod 10) is a success."""
+    pat = ['X', 'X', 'X', 'X', 'X', 'Y', 'Z', 'I', 'I', 'I']
+    bits = {'I': (0, 0), 'X': (1, 0), 'Y': (1, 1), 'Z': (0, 1)}
+    out = []
+    for j in range(N_LARGE):
+        t = 0
+        for i in range(k):
+            x, z = bits[pat[(j + i) % LARGE_PERIOD]]
+            if i % 2 == 1:
+                x, z = z, x
+            t |= (x << i) | (z << (k + i))
+        if j % 5 == 4:
+            t |= 1 << (2 * k)
+        out.append(t)
+    return out
 
 
 def partitions(xs):
@@ -200,6 +247,9 @@ def cases(tier, seed):
                 for prefix in sorted(groups):
                     out.append({'k': k, 'set': s, 'part': part, 'mode': mode, 'prefix': list(prefix)})
     out.sort(key=lambda c: (len(c['part']), c['k'], c['set'], c['part'], c['prefix']))
+    for k in (1, 2, 3):
+        for split in LARGE_SPLITS:
+            out.append({'family': 'large', 'k': k, 'split': split})
     return out
 
 
@@ -284,8 +334,8 @@ class _Ctx:
         self.k = k
         self.code = getattr(codes, name)(*size)
         assert self.code.k == k
-        self.em = PauliErrorModel(1 / 3, 1 / 3, 1 / 3)
-        self.dec = BeliefPropagationOSDDecoder(self.code, self.em, 0.1)
+        self.ems = [PauliErrorModel(*r) for r in NOISE]
+        self.dec = BeliefPropagationOSDDecoder(self.code, self.ems[0], 0.1)
         self.DirectSimulation = DirectSimulation
         self.BatchSimulation = BatchSimulation
         self.Analysis = Analysis
@@ -293,15 +343,16 @@ class _Ctx:
         self.CliRunner = CliRunner
 
     def write(self, path, records, bare=False, ulp=False):
-        """records: list of (rate, [trial types]) -> one result file written by the real writer."""
+        """records: list of (point label, [trial types]) -> one result file written by the real writer."""
         np = self.np
         batch = self.BatchSimulation(path, verbose=False)
-        for rate, types in records:
+        for label, types in records:
+            rate, noise = POINTS[label]
             if ulp:
                 # the same requested rate as another float path produces it (np.linspace / arange give
                 # 0.30000000000000004 for 0.3): one unit in the last place away, still the same point
                 rate = float(np.nextafter(rate, 1.0))
-            sim = self.DirectSimulation(self.code, self.em, self.dec, rate, verbose=False)
+            sim = self.DirectSimulation(self.code, self.ems[noise], self.dec, rate, verbose=False)
             for t in types:
                 ee, cs, ok = _type(t, self.k)
                 # exactly what DirectSimulation._run appends from run_once's dict
@@ -325,7 +376,7 @@ class _Ctx:
                     json.dump(data[0], f)
 
     def analyse(self, paths):
-        """Run the real pipeline; return {rate: {column: value}} and the number of raw records."""
+        """Run the real pipeline; return {point label: {column: value}} and the number of raw records."""
         a = self.Analysis(paths)
         a.calculate_thresholds = lambda *args, **kw: None       # the fit is C16's subject
         a.calculate_sector_thresholds()
@@ -337,8 +388,15 @@ class _Ctx:
         rates = []
         for _, r in df.iterrows():
             rate = float(r['error_rate'])
-            rates.append(rate)
-            row = {}
+            params = r['error_model_params'] if 'error_model_params' in df.columns else {}
+            direction = tuple(params.get(c) for c in ('r_x', 'r_y', 'r_z'))
+            # a row is identified by (error rate, noise direction) - exact parameter values, no rounding
+            label = [lb for lb, (pr, pn) in POINTS.items() if pr == rate and NOISE[pn] == direction]
+            label = label[0] if label else 'rate=%r direction=%r' % (rate, direction)
+            if label in table:
+                label += ' (row %d)' % len(rates)
+            rates.append(label)
+            row = {'error_rate': rate, 'direction': list(direction)}
             for c in INT_COLS:
                 row[c] = int(r[c])
             for c in FLOAT_COLS:
@@ -346,21 +404,26 @@ class _Ctx:
             for c in ARRAY_COLS:
                 arr = self.np.asarray(r[c], dtype=float)
                 row[c] = [[float(x) for x in line] for line in arr.tolist()] if arr.ndim == 2 else arr.tolist()
-            table[rate] = row
+            table[label] = row
         return table, rates, len(a.raw)
 
 
-def _file_records(part, a_types, b_types):
-    """Per file (block of the partition) the list of records, in file-internal order."""
+def _file_records(part, a_types, b_types, c_types):
+    """Per file (block of the partition) the list of records, in file-internal order.  A's trials follow the
+    partition, B's are dealt round-robin from the first file on, C's from the last file backwards."""
     nb = len(part)
     files = []
     for i, block in enumerate(part):
-        rec_a = (RATES[0], [a_types[j] for j in block])
+        rec_a = ('A', [a_types[j] for j in block])
         b_here = [b_types[j] for j in range(N_B) if j % nb == i]
+        c_here = [c_types[j] for j in range(N_C) if (nb - 1 - j) % nb == i]
         recs = [rec_a]
         if b_here:
-            rec_b = (RATES[1], b_here)
+            rec_b = ('B', b_here)
             recs = [rec_a, rec_b] if i % 2 == 0 else [rec_b, rec_a]
+        if c_here:
+            rec_c = ('C', c_here)
+            recs = recs + [rec_c] if (i + nb) % 2 == 0 else [rec_c] + recs
         files.append(recs)
     return files
 
@@ -424,50 +487,78 @@ def _digest(table):
 
 
 def eval_case(case):
-    k, s, part, mode, prefix = case['k'], case['set'], case['part'], case['mode'], tuple(case['prefix'])
-    nb = len(part)
+    k = case['k']
+    large = case.get('family') == 'large'
     res = {'evals': 0, 'nontrivial': 0, 'violations': [], 'samples': [], 'outcomes': [],
            'extra': {'analyses': 0, 'violations_total': 0, 'layouts_with_violation': 0,
-                     'raw_records_read': 0, 'merge_commands': 0, 'zip_archives': 0}}
+                     'raw_records_read': 0, 'merge_commands': 0, 'zip_archives': 0, 'large_count_analyses': 0}}
     V = res['violations']
-    a_types, b_types = trial_sets(k, s)
-    expected = {RATES[0]: oracle_row([_type(t, k) for t in a_types], k),
-                RATES[1]: oracle_row([_type(t, k) for t in b_types], k)}
-    files = _file_records(part, a_types, b_types)
+    if large:
+        s, mode, prefix = 0, None, ()
+        split = case['split']
+        nb = len(split)
+        part = split                     # reported as the file lengths
+        pooled = {'A': large_trials(k)}
+        assert sum(split) == N_LARGE
+        files, at = [], 0
+        for n in split:
+            files.append([('A', pooled['A'][at:at + n])])
+            at += n
+        plan = [(kinds, o) for kinds in LARGE_KINDS[nb] for o in (list(range(nb)), 'dir')]
+    else:
+        s, part, mode, prefix = case['set'], case['part'], case['mode'], tuple(case['prefix'])
+        nb = len(part)
+        a_types, b_types, c_types = trial_sets(k, s)
+        pooled = {'A': a_types, 'B': b_types, 'C': c_types}
+        files = _file_records(part, a_types, b_types, c_types)
+        plan = [(kinds, o) for kinds, o in layouts(nb, mode) if kinds[:len(prefix)] == prefix]
+    labels = sorted(pooled)
+    expected = {lb: oracle_row([_type(t, k) for t in pooled[lb]], k) for lb in labels}
     # the split must be a split of exactly the fixed multiset (harness self-check)
-    assert sorted(t for f in files for r, ts in f if r == RATES[0] for t in ts) == sorted(a_types)
-    assert sorted(t for f in files for r, ts in f if r == RATES[1] for t in ts) == sorted(b_types)
+    for lb in labels:
+        assert sorted(t for f in files for r, ts in f if r == lb for t in ts) == sorted(pooled[lb])
     ctx = _Ctx(k)
     root = tempfile.mkdtemp(prefix='c15_', dir='/dev/shm' if os.path.isdir('/dev/shm') else None)
     nontrivial = set()
     outcomes = set()
 
+    def brief(recs):
+        """Records of one file for the report: trial types, or their number when there are many."""
+        return [[lb, ts if len(ts) <= 8 else '%d trials' % len(ts)] for lb, ts in recs]
+
     def emit(key, detail):
         # at most 4 oracle mismatches + 2 split-dependence reports per case (first = simplest); all are counted
         res['extra']['violations_total'] += 1
-        split = key['kind'] == 'split-dependence'
-        same = sum(1 for v in V if (v['key']['kind'] == 'split-dependence') == split)
-        if same < (2 if split else 4) and not any(v['key'] == key for v in V):
+        if large:
+            key = dict(key, family='large')
+        split_dep = key['kind'] == 'split-dependence'
+        same = sum(1 for v in V if (v['key']['kind'] == 'split-dependence') == split_dep)
+        if same < (2 if split_dep else 4) and not any(v['key'] == key for v in V):
             V.append({'key': key, 'detail': detail})
 
     def run(label, file_recs, kinds, order):
         """One layout -> observed table (or None); all comparisons with the hand-pooled oracle."""
         d = tempfile.mkdtemp(prefix='l_', dir=root)
-        where = {'k': k, 'trial_set': s, 'partition': part if label != 'unsplit' else [list(range(N_A))],
-                 'kinds': [KINDS[c] for c in kinds], 'order': order, 'layout': label,
-                 'records_per_file': [[[r, ts] for r, ts in f] for f in file_recs],
-                 'trial_types_A': a_types, 'trial_types_B': b_types}
+        where = {'k': k, 'trial_set': s, 'layout': label,
+                 'kinds': [KINDS[c] for c in kinds], 'order': order,
+                 'records_per_file': [brief(f) for f in file_recs],
+                 'points': {lb: {'error_rate': POINTS[lb][0], 'direction': list(NOISE[POINTS[lb][1]]),
+                                 'n_trials': len(pooled[lb])} for lb in labels}}
+        if large:
+            where['file_lengths'] = part if label != 'unsplit' else [N_LARGE]
+        else:
+            where['partition'] = part if label != 'unsplit' else [list(range(N_A))]
         base_key = {'k': k, 'n_files': len(file_recs)}
         before = res['extra']['violations_total']
         n_records = sum(len(f) for f in file_recs)
-        if n_records > len(RATES) or any(KINDS[c] != 'json' for c in kinds):
+        if n_records > len(labels) or any(KINDS[c] != 'json' for c in kinds):
             nontrivial.add('%s|%s|%s' % (label, kinds, order))
         try:
             with warnings.catch_warnings():
                 warnings.simplefilter('ignore')
                 try:
                     arg = _build(ctx, d, file_recs, kinds, order)
-                    table, rates, n_raw = ctx.analyse(arg)
+                    table, rows, n_raw = ctx.analyse(arg)
                 except _MissingColumns as exc:
                     emit(dict(base_key, kind='missing-column', column=exc.args[0][0]),
                          dict(where, missing_columns=exc.args[0]))
@@ -488,59 +579,65 @@ def eval_case(case):
             shutil.rmtree(d, ignore_errors=True)
         res['evals'] += 1
         res['extra']['analyses'] += 1
+        res['extra']['large_count_analyses'] += int(large)
         res['extra']['raw_records_read'] += n_raw
         res['extra']['merge_commands'] += int(any(KINDS[c] == 'merged' for c in kinds))
         res['extra']['zip_archives'] += int(any(KINDS[c] == 'zip' for c in kinds))
-        outcomes.add('%d|%d|%d|%s' % (k, s, n_raw, _digest({str(r): table[r] for r in table})))
-        # one row per (code, noise, decoder, error rate)
-        if sorted(rates) != sorted(RATES):
-            emit(dict(base_key, kind='rows', n_rows=len(rates), n_points=len(RATES)),
-                 dict(where, error_rates_reported=rates, expected=RATES,
-                      n_trials_reported=[table[r]['n_trials'] for r in table]))
+        outcomes.add('%d|%d|%d|%s' % (k, s, n_raw, _digest(table)))
+        # exactly one row per (code, noise, decoder, error rate)
+        if sorted(rows) != labels:
+            emit(dict(base_key, kind='rows', n_rows=len(rows), n_points=len(labels)),
+                 dict(where, rows_reported=[{'row': lb, 'error_rate': table[lb]['error_rate'],
+                                             'direction': table[lb]['direction'],
+                                             'n_trials': table[lb]['n_trials']} for lb in rows]))
         else:
-            for pi, rate in enumerate(RATES):
+            for lb in labels:
                 for col in ALL_COLS:
-                    got, want = table[rate][col], expected[rate][col]
+                    got, want = table[lb][col], expected[lb][col]
                     if _close(got, want):
                         continue
-                    key = dict(base_key, kind='value', column=col, point='AB'[pi])
+                    key = dict(base_key, kind='value', column=col, point=lb)
                     if col.endswith('_se'):
-                        est = table[rate][col[:-3] + '_est']
+                        est = table[lb][col[:-3] + '_est']
                         key['se_equals_estimate'] = bool(_close(got, est))
-                    emit(key, dict(where, error_rate=rate, reported=got, hand_pooled=want,
-                                   pooled_trials=[list(_type(t, k)) for t in (a_types, b_types)[pi]]))
+                    detail = dict(where, point=lb, reported=got, hand_pooled=want)
+                    if len(pooled[lb]) <= 8:
+                        detail['pooled_trials'] = [list(_type(t, k)) for t in pooled[lb]]
+                    else:
+                        detail['pooled_trials'] = ('%d trials: types %s repeated'
+                                                   % (len(pooled[lb]), pooled[lb][:LARGE_PERIOD]))
+                    emit(key, detail)
         if res['extra']['violations_total'] > before:
             res['extra']['layouts_with_violation'] += 1
         return table
 
     try:
         # reference layout: the whole multiset in one plain json file
-        unsplit = [[(RATES[0], list(a_types)), (RATES[1], list(b_types))]]
+        unsplit = [[(lb, list(pooled[lb])) for lb in labels]]
         ref = run('unsplit', unsplit, (0,), [0])
-        for kinds, order in layouts(nb, mode):
-            if kinds[:len(prefix)] != prefix:
-                continue
+        for kinds, order in plan:
             table = run('split', files, kinds, order)
             if len(res['samples']) < 2 and (order == 'dir' or len(set(kinds)) > 1 or nb == 1):
                 res['samples'].append({
-                    'k': k, 'trial_set': s, 'partition': part, 'kinds': [KINDS[c] for c in kinds], 'order': order,
-                    'records_per_file': [[[r, ts] for r, ts in f] for f in files],
+                    'k': k, 'trial_set': s, 'family': 'large' if large else 'partitions',
+                    'partition_or_file_lengths': part, 'kinds': [KINDS[c] for c in kinds], 'order': order,
+                    'records_per_file': [brief(f) for f in files],
                     'reported': None if table is None else {
                         str(r): {c: table[r][c] for c in INT_COLS + ['p_est', 'p_se']} for r in table}})
             if table is None or ref is None:
                 continue
+            where = {'k': k, 'trial_set': s, 'partition_or_file_lengths': part,
+                     'kinds': [KINDS[c] for c in kinds], 'order': order}
             if sorted(table) != sorted(ref):
                 emit({'kind': 'split-dependence', 'what': 'rows', 'k': k, 'n_files': nb},
-                     {'k': k, 'trial_set': s, 'partition': part, 'kinds': [KINDS[c] for c in kinds],
-                      'order': order, 'rows_unsplit': sorted(ref), 'rows_split': sorted(table)})
+                     dict(where, rows_unsplit=sorted(ref), rows_split=sorted(table)))
                 continue
-            for rate in ref:
-                bad = [c for c in ALL_COLS if not _close(table[rate][c], ref[rate][c])]
+            for lb in ref:
+                bad = [c for c in ALL_COLS if not _close(table[lb][c], ref[lb][c])]
                 if bad:
                     emit({'kind': 'split-dependence', 'what': 'value', 'column': bad[0], 'k': k, 'n_files': nb},
-                         {'k': k, 'trial_set': s, 'partition': part, 'kinds': [KINDS[c] for c in kinds],
-                          'order': order, 'error_rate': rate, 'columns': bad,
-                          'unsplit': {c: ref[rate][c] for c in bad}, 'split': {c: table[rate][c] for c in bad}})
+                         dict(where, point=lb, columns=bad,
+                              unsplit={c: ref[lb][c] for c in bad}, split={c: table[lb][c] for c in bad}))
                     break
     finally:
         shutil.rmtree(root, ignore_errors=True)
